@@ -14,13 +14,16 @@
 (*    cont    - sequence of containers, each                                                        *)
 (*              [srkSet (0 none / 2 oem), used, revoke, gdet, sw, fuse, kt (key type of the SRK set  *)
 (*               or "none"), blob, keyBits, keyId (two 16-bit limbs),                                *)
+(*               cert - the optional certificate [present, perm (permission byte), permData (12      *)
+(*                      bytes), fuse, uuid (16 bytes), signer (index of the SRK whose private key     *)
+(*                      signed the certificate - the ROM accepts it only from the SELECTED SRK)],     *)
 (*               img - sequence of [len, ht, enc, off (explicit image offset, 0 = automatic), type,  *)
 (*                     core, boot, meta (2 limbs), load, entry (4 limbs each)]],                      *)
 (*    refuse  - the generator (AhabLayout) has predicted a collision: the export has to be refused]  *)
 (* s   = registers: st (control state), ci (container index), c (header), k (image index),          *)
-(*       sb (signature block), sigEnd, imgs (image intervals of the whole file), conts (container    *)
-(*       intervals), hp (hash-protected intervals of the current container), cov (authenticated      *)
-(*       intervals).                                                                                 *)
+(*       sb (signature block), cert (certificate), sigEnd, imgs (image intervals of the whole      *)
+(*       file), conts (container intervals), hp (hash-protected intervals of the current            *)
+(*       container), cov (authenticated intervals).                                                  *)
 (* Crypto appears only as facts (hashOk, ok, decOk ...) evaluated by the executor with a trusted     *)
 (* base that is independent of SPSDK.                                                                *)
 EXTENDS Integers, Sequences, FiniteSets, TLC
@@ -34,6 +37,9 @@ TabHdrLen == 4         \* SRK table header
 RecHdrLen == 12        \* SRK record header
 DataHdrLen == 8        \* SRK data header (version 2)
 BlobFixed == 56        \* blob header (8) + wrapping overhead (48)
+CertFixed == 40        \* certificate: head (4), signature offset (2), ~permissions, permissions, permission data (12),
+                       \* fuse version + 3 reserved bytes, UUID (16); then the SRK record and SRK data of its key, then its signature
+CertVersion == 2
 
 Slot(cver)        == IF cver = 2 THEN 16384 ELSE 1024     \* containers sit at k * Slot
 ContVersion(cver) == IF cver = 2 THEN 2 ELSE 0
@@ -56,10 +62,12 @@ KeySize(kt) == CASE kt = "ecc256" -> 1 [] kt = "ecc384" -> 2 [] kt = "ecc521" ->
 SignHash(kt) == CASE kt = "ecc384" -> 1 [] kt = "ecc521" -> 2 [] OTHER -> 0     \* SHA-256 / 384 / 512 by curve, RSA: SHA-256
 RecLen(cver, kt) == RecHdrLen + (IF cver = 2 THEN 64 ELSE ParLen(kt))          \* version 2 records hold a 512-bit hash of the SRK data
 
-S0 == [st |-> "Hdr", ci |-> 0, c |-> [x |-> 0], k |-> 0, sb |-> [x |-> 0], sigEnd |-> 0,
+S0 == [st |-> "Hdr", ci |-> 0, c |-> [x |-> 0], k |-> 0, sb |-> [x |-> 0], cert |-> [x |-> 0], sigEnd |-> 0,
        imgs |-> {}, conts |-> {}, hp |-> {}, cov |-> {}]
 
 X(rom, s) == rom.cont[s.ci + 1]
+HasCert(rom, s) == X(rom, s).cert.present
+SignsContainer(perm) == perm % 2 = 1      \* permission bit 0 (`container`): the key of the certificate signs the container
 
 (* ------------------------------------------------------------------ container header *)
 HdrOK(rom, s, e) ==
@@ -103,12 +111,13 @@ SigBlkOK(rom, s, e) ==
   /\ s.st = "SigBlk" /\ e.ci = s.ci /\ e.tagOk /\ e.version = SbVersion(rom.cver)
   /\ e.at = s.c.at + s.c.sigBlockOff
   /\ s.c.length = s.c.sigBlockOff + e.length               \* the container length covers exactly header, array and signature block
-  /\ e.certOff = 0                                         \* (no certificate in the asserted domain)
+  /\ (HasCert(rom, s) <=> e.certOff # 0)                   \* the optional certificate is there iff the builder put one in
+  /\ (e.certOff # 0 => X(rom, s).srkSet # 0 /\ e.certOff > e.sigOff /\ e.certOff + CertFixed < e.length)
   /\ IF X(rom, s).srkSet = 0 THEN e.srkOff = 0 /\ e.sigOff = 0
                              ELSE e.srkOff = SbHdrLen /\ e.sigOff > e.srkOff /\ e.sigOff + SigHdrLen <= e.length
   /\ (X(rom, s).blob <=> e.blobOff # 0)
   /\ e.keyId = (IF X(rom, s).blob THEN X(rom, s).keyId ELSE <<0, 0>>)
-  /\ (e.blobOff # 0 => e.blobOff > e.sigOff /\ e.blobOff >= SbHdrLen /\ e.blobOff < e.length)
+  /\ (e.blobOff # 0 => e.blobOff > e.sigOff /\ e.blobOff > e.certOff /\ e.blobOff >= SbHdrLen /\ e.blobOff < e.length)
   /\ (rom.cver = 1 => e.sigOff % 8 = 0 /\ e.blobOff % 8 = 0)                               \* 64-bit alignment of the blocks
   /\ (X(rom, s).srkSet = 0 /\ ~X(rom, s).blob => e.length = SbHdrLen)
 SigBlkNx(rom, s, e) ==
@@ -132,19 +141,49 @@ SrkOK(rom, s, e) ==
   /\ e.keysOk                                              \* the table holds the four keys of the builder's SRK set, in order
   /\ e.srkHashOk                                           \* the SRK hash SPSDK reports (fuse value) = hash of the exported table
   /\ s.sb.sigOff >= e.end - s.sb.at /\ s.sb.sigOff < e.end - s.sb.at + 8       \* the signature follows the table
-SrkNx(rom, s, e) == [s EXCEPT !.st = "Sig"]
+SrkNx(rom, s, e) == [s EXCEPT !.st = IF HasCert(rom, s) THEN "Cert" ELSE "Sig"]
+
+(* ------------------------------------------------------------------ certificate (optional, version-2 format) *)
+(* The certificate is authenticated by ITS OWN signature, made with the selected SRK over the certificate from its first     *)
+(* byte up to (not including) its signature - whatever its permissions are.  It lies behind the container signature, so the   *)
+(* container signature covers only its offset (signature block header), never its bytes.                                      *)
+CertOK(rom, s, e) ==
+  LET x == X(rom, s)
+      kt == x.kt IN
+  /\ s.st = "Cert" /\ e.ci = s.ci /\ rom.cver = 2 /\ HasCert(rom, s)
+  /\ e.at = s.sb.at + s.sb.certOff
+  /\ e.tagOk /\ e.version = CertVersion
+  /\ e.permInvOk /\ e.perm = x.cert.perm                   \* decoded = builder input
+  /\ e.permData = x.cert.permData /\ e.fuse = x.cert.fuse /\ e.rsvZero /\ e.uuid = x.cert.uuid
+  /\ e.recAt = e.at + CertFixed /\ e.recTagOk /\ e.recLen = RecLen(2, kt) /\ e.recRsvZero /\ e.recFlags = 0 /\ e.sizesOk
+  /\ e.alg = KeyAlg(kt) /\ e.keySize = KeySize(kt) /\ e.signHash = SignHash(kt)     \* a key of the type of the SRK set
+  /\ e.dataAt = e.recAt + e.recLen /\ e.dataTagOk /\ e.dataLen = DataHdrLen + ParLen(kt)
+  /\ e.dataHashOk                                         \* the record holds the hash of the key material that follows
+  /\ e.keyOk                                              \* the key of the builder
+  /\ e.sigOff = CertFixed + e.recLen + e.dataLen /\ e.sigAt = e.at + e.sigOff          \* the signature follows the key
+  /\ e.sigTagOk /\ e.sigVersion = 0 /\ e.sigLen = SigLen(kt) /\ e.sigTotal = SigHdrLen + e.sigLen
+  /\ e.length = e.sigOff + e.sigTotal
+  /\ e.signedFrom = e.at /\ e.signedTo = e.sigAt          \* exactly the certificate up to its signature
+  /\ e.key = s.c.used /\ ~Revoked(s.c.used, s.c.revoke)   \* with the selected SRK, which must not be revoked
+  /\ e.sigOk
+CertNx(rom, s, e) ==
+  [s EXCEPT !.cert = e, !.st = "Sig",
+            !.cov = @ \cup {<<e.at, e.sigAt>>, <<e.sigAt + SigHdrLen, e.sigAt + e.sigTotal>>}]
 
 (* ------------------------------------------------------------------ container signature *)
 SigOK(rom, s, e) ==
   LET kt == X(rom, s).kt
-      endOff == s.sb.sigOff + e.length IN
+      endOff == s.sb.sigOff + e.length
+      tailOff == IF HasCert(rom, s) THEN s.sb.certOff + s.cert.length ELSE endOff IN      \* end of the last block in front of the blob
   /\ s.st = "Sig" /\ e.ci = s.ci /\ e.tagOk /\ e.version = 0
   /\ e.sigAt = s.sb.at + s.sb.sigOff
   /\ e.signedFrom = s.c.at /\ e.signedTo = e.sigAt         \* exactly header || image array || signature block up to the signature
   /\ e.key = s.c.used /\ ~Revoked(s.c.used, s.c.revoke)    \* the selected SRK, which must not be revoked
+  /\ e.byCert = (HasCert(rom, s) /\ SignsContainer(s.cert.perm))    \* ... unless a certificate with the `container` permission hands in its key
   /\ e.ok
   /\ e.sigLen = SigLen(kt) /\ e.length = SigHdrLen + e.sigLen
-  /\ IF X(rom, s).blob THEN s.sb.blobOff >= endOff /\ s.sb.blobOff < endOff + 8 ELSE s.sb.length = endOff
+  /\ (HasCert(rom, s) => s.sb.certOff >= endOff /\ s.sb.certOff < endOff + 8)           \* the certificate follows the signature
+  /\ IF X(rom, s).blob THEN s.sb.blobOff >= tailOff /\ s.sb.blobOff < tailOff + 8 ELSE s.sb.length = tailOff
 SigNx(rom, s, e) ==
   [s EXCEPT !.sigEnd = e.sigAt + e.length,
             !.cov = @ \cup {<<s.c.at, e.sigAt>>, <<e.sigAt + SigHdrLen, e.sigAt + e.length>>},
@@ -181,17 +220,21 @@ StepOK(rom, s, e) ==
     [] e.ev = "SignatureBlock"  -> SigBlkOK(rom, s, e) [] e.ev = "SrkTable"        -> SrkOK(rom, s, e)
     [] e.ev = "VerifySignature" -> SigOK(rom, s, e)    [] e.ev = "Blob"            -> BlobOK(rom, s, e)
     [] e.ev = "ContainerEnd"    -> EndOK(rom, s, e)    [] e.ev = "Accept"          -> AcceptOK(rom, s, e)
+    [] e.ev = "Certificate"     -> CertOK(rom, s, e)
     [] OTHER -> FALSE
 StepNx(rom, s, e) ==
   CASE e.ev = "ContainerHeader" -> HdrNx(rom, s, e)    [] e.ev = "ImageEntry"      -> ImgNx(rom, s, e)
     [] e.ev = "SignatureBlock"  -> SigBlkNx(rom, s, e) [] e.ev = "SrkTable"        -> SrkNx(rom, s, e)
     [] e.ev = "VerifySignature" -> SigNx(rom, s, e)    [] e.ev = "Blob"            -> BlobNx(rom, s, e)
-    [] e.ev = "ContainerEnd"    -> EndNx(rom, s, e)    [] OTHER                    -> AcceptNx(rom, s, e)
+    [] e.ev = "ContainerEnd"    -> EndNx(rom, s, e)    [] e.ev = "Certificate"     -> CertNx(rom, s, e)
+    [] OTHER                    -> AcceptNx(rom, s, e)
 RECURSIVE Run(_, _, _, _)
 Run(rom, s, evs, i) ==
   IF i > Len(evs) \/ s.st = "Accepted" THEN s
   ELSE IF StepOK(rom, s, evs[i]) THEN Run(rom, StepNx(rom, s, evs[i]), evs, i + 1) ELSE [s EXCEPT !.st = "Rejected"]
 
 InCov(s, at) == \E iv \in s.cov : iv[1] <= at /\ at < iv[2]
-MustRefuse(rom) == rom.refuse \/ \E i \in 1..Len(rom.cont) : rom.cont[i].srkSet # 0 /\ Revoked(rom.cont[i].used, rom.cont[i].revoke)
+WrongSigner(x) == x.cert.present /\ x.cert.signer # x.used       \* a certificate signed by an SRK that is not the selected one
+MustRefuse(rom) == rom.refuse \/ \E i \in 1..Len(rom.cont) : \/ rom.cont[i].srkSet # 0 /\ Revoked(rom.cont[i].used, rom.cont[i].revoke)
+                                                            \/ WrongSigner(rom.cont[i])
 =============================================================================
